@@ -135,8 +135,8 @@ def run(run):
     run.prove()
     rng = run.rng
     quick = run.tier == "quick"
-    texts = [gen_doc(rng) for _ in range(700 if quick else 20000)]
-    texts += [c02.render(c02.gen_doc(rng, rng.randint(1, 8)), rng) for _ in range(150 if quick else 3000)]
+    texts = [gen_doc(rng) for _ in range(1500 if quick else 20000)]
+    texts += [c02.render(c02.gen_doc(rng, rng.randint(1, 8)), rng) for _ in range(300 if quick else 3000)]
     chunks = [texts[i:i + 100] for i in range(0, len(texts), 100)]
     res = lib.run_impl("roundtrip", [{"texts": c} for c in chunks], shards=lib.NCPU)
     outs = [o for r in res for o in (r.get("outs") or [])]
@@ -157,7 +157,7 @@ def run(run):
             run.property_failure("c19:list-argument", "node_to_wikitext(list of children) differs from the concatenation", t)
     from lib import cstr
     strings = ["".join(rng.choice(["[", "]", "[[", "]]", "a", " ", "|", "x"]) for _ in range(rng.randint(1, 8)))
-               for _ in range(150 if quick else 2000)]
+               for _ in range(300 if quick else 2000)]
     strings += ["[[x]]", "a [[ b", "c ]] d", "[[a|b]] and ]]", "[[", "]]", "x[[y]]z[[w]]", "[ [", "[[[a]]]", "]]]", "[[[[", "[[a]] [[b]]"]
     bres = lib.run_impl("brackets", [{"strings": strings}], shards=1)[0]
     coq_cases = ["(%s, %s)" % (cstr(s_), cstr(o_["w"])) for s_, o_ in zip(strings, bres.get("outs", []))]
